@@ -276,7 +276,62 @@ fn sanitize(s: &str) -> String {
     s.chars().map(|c| if c.is_ascii_alphanumeric() { c } else { '_' }).take(40).collect()
 }
 
+/// Canonical text of one iterator item.
+fn tlv_item_text(r: &Result<v2::TypeLengthValue<'_>, v2::ParseError>) -> String {
+    match r {
+        Ok(t) => format!("{}:{}", t.kind, hex(&t.value)),
+        Err(v2::ParseError::Leftovers(_)) => "!leftovers".to_string(),
+        Err(v2::ParseError::InvalidTLV(t, l)) => format!("!invalidtlv:{}:{}", t, l),
+        Err(other) => format!("!other:{}", v2_err(other).replace(' ', "_")),
+    }
+}
+
+/// The sequence obtained with `next()` alone (bounded), compared with what the other `Iterator`
+/// methods report on fresh copies of the same iterator.
+fn adaptors_agree(it0: v2::TypeLengthValues<'_>, nbytes: usize) -> bool {
+    let cap = nbytes / 3 + 3;
+    let mut base: Vec<String> = Vec::new();
+    let mut it = it0;
+    while base.len() < cap {
+        match it.next() {
+            None => break,
+            Some(r) => base.push(tlv_item_text(&r)),
+        }
+    }
+    if base.len() >= cap {
+        return true; // non-terminating iterator: reported through `ended` / the step bound
+    }
+    let n = base.len();
+    let texts = |v: Vec<Result<v2::TypeLengthValue<'_>, v2::ParseError>>| v.iter().map(tlv_item_text).collect::<Vec<_>>();
+    let mut ok = texts(it0.take(cap).collect()) == base;
+    ok &= it0.take(cap).count() == n;
+    ok &= it0.take(cap).last().map(|r| tlv_item_text(&r)) == base.last().cloned();
+    let (lo, hi) = it0.size_hint();
+    ok &= lo <= n && hi.map_or(true, |h| h >= n);
+    let ks: Vec<usize> = if n <= 6 { (0..=n + 2).collect() } else { vec![0, 1, 2, n - 2, n - 1, n, n + 1] };
+    for &k in &ks {
+        let mut c = it0;
+        ok &= c.nth(k).map(|r| tlv_item_text(&r)) == base.get(k).cloned();
+        // ... and the iterator continues right after the k-th item
+        ok &= c.next().map(|r| tlv_item_text(&r)) == base.get(k + 1).cloned() || k >= n;
+        ok &= texts(it0.skip(k).take(cap).collect()) == base.iter().skip(k).cloned().collect::<Vec<_>>();
+        if k > 0 {
+            ok &= texts(it0.step_by(k).take(cap).collect()) == base.iter().step_by(k).cloned().collect::<Vec<_>>();
+        }
+        // a copy taken after k calls of `next` yields the rest
+        let mut d = it0;
+        for _ in 0..k.min(n) {
+            d.next();
+        }
+        let e = d;
+        ok &= texts(e.take(cap).collect()) == base.iter().skip(k.min(n)).cloned().collect::<Vec<_>>();
+        ok &= texts(d.by_ref().take(cap).collect()) == base.iter().skip(k.min(n)).cloned().collect::<Vec<_>>();
+    }
+    ok
+}
+
 fn tlv_items(mut it: v2::TypeLengthValues<'_>, nbytes: usize) -> String {
+    let it0 = it;
     let cap = nbytes / 3 + 3;
     let mut parts: Vec<String> = Vec::new();
     let mut steps = 0usize;
@@ -312,17 +367,22 @@ fn tlv_items(mut it: v2::TypeLengthValues<'_>, nbytes: usize) -> String {
     }
     // after the end, `next` must keep returning None
     let fused = ended && it.next().is_none() && it.next().is_none();
+    // "Iterating" is more than calling `next` in a loop: the provided `Iterator` methods a caller
+    // reaches for (`collect`, `count`, `last`, `nth`, `skip`, `step_by`, `by_ref`, a copy taken
+    // mid-way) must describe the same sequence, also when a type overrides them.
+    let adapt = adaptors_agree(it0, nbytes);
     // the section view is the whole section wherever the cursor is
     // (`len()` is a u16: what it reports for a raw slice above 65 535 bytes is not pinned by any property)
     let sbytes = it.as_bytes().len() == nbytes && (nbytes > 65535 || it.len() as usize == nbytes) && it.is_empty() == (nbytes == 0);
     format!(
-        "[{}] steps={} ended={} fused={} towned={} sbytes={}",
+        "[{}] steps={} ended={} fused={} towned={} sbytes={} adapt={}",
         parts.join(","),
         steps,
         b01(ended),
         b01(fused),
         b01(owned_ok),
-        b01(sbytes)
+        b01(sbytes),
+        b01(adapt)
     )
 }
 
@@ -691,11 +751,27 @@ fn op_bld(rest: &str) -> Option<String> {
                 let p = parse_payload(v)?;
                 with_payload!(&p, x => b.write_payload(&x))
             }
-            "wps" => {
+            "wps" | "wpl" | "wpf" | "wpc" => {
                 let ps: Option<Vec<Payload>> =
                     if v.is_empty() { Some(vec![]) } else { v.split('+').map(parse_payload).collect() };
                 let ps = ps?;
-                b.write_payloads(ps.iter().map(Dyn))
+                match k {
+                    // exact size hint
+                    "wps" => b.write_payloads(ps.iter().map(Dyn)),
+                    // lazy adaptor: size_hint() == (0, Some(n))
+                    "wpl" => b.write_payloads(ps.iter().map(Dyn).filter(|_| true)),
+                    // single-use generator: size_hint() == (0, None)
+                    "wpf" => {
+                        let mut it = ps.iter();
+                        b.write_payloads(std::iter::from_fn(move || it.next().map(Dyn)))
+                    }
+                    // two halves chained, handed over as an owned Vec of wrappers
+                    _ => {
+                        let (a, c) = ps.split_at(ps.len() / 2);
+                        let v2: Vec<Dyn<'_>> = a.iter().map(Dyn).chain(c.iter().map(Dyn)).collect();
+                        b.write_payloads(v2)
+                    }
+                }
             }
             "tlv" => {
                 let (t, bs) = v.split_once(':')?;
